@@ -81,6 +81,11 @@ func IDHint(id interface{}) (string, bool) {
 
 // Build creates the gateway. A merge failure is returned as error.
 func Build(w *world.World, net *fake.Net, cfg Config) (gw *pebbles.Gateway, err error) {
+	return BuildWithFactory(w, net, cfg, nil)
+}
+
+// BuildWithFactory is Build with a caller-supplied queryer factory (scripted subscriptions).
+func BuildWithFactory(w *world.World, net *fake.Net, cfg Config, factory pebbles.QueryerFactory) (gw *pebbles.Gateway, err error) {
 	defer func() {
 		if r := recover(); r != nil {
 			err = fmt.Errorf("PANIC in NewGateway: %v\n%s", r, debug.Stack())
@@ -91,11 +96,14 @@ func Build(w *world.World, net *fake.Net, cfg Config) (gw *pebbles.Gateway, err 
 		maxBatch = 3000
 	}
 	client := &http.Client{Transport: net}
+	if factory == nil {
+		factory = func(ctx *planner.PlanningContext, url string) queryer.Queryer {
+			return queryer.NewMultiOpQueryer(url, maxBatch).WithHTTPClient(client)
+		}
+	}
 	opts := []pebbles.GatewayOption{
 		pebbles.WithRemoteSchemaIntrospector(DirectIntrospector{W: w}),
-		pebbles.WithQueryerFactory(func(ctx *planner.PlanningContext, url string) queryer.Queryer {
-			return queryer.NewMultiOpQueryer(url, maxBatch).WithHTTPClient(client)
-		}),
+		pebbles.WithQueryerFactory(factory),
 	}
 	if cfg.Merger == "sanitize" {
 		var m merger.SanitizeNodeMergerFunc
